@@ -4,6 +4,7 @@ use super::CheckDef;
 use crate::cg::*;
 use crate::ctx::{guard, panic_class, Ctx, Tier};
 use crate::nn::*;
+use crate::program::*;
 use crate::refmodel::*;
 use crate::rng::Rng;
 use corgi::cost::{self, CostFunction};
@@ -33,6 +34,13 @@ fn families(t: Tier) -> Vec<(&'static str, u64)> {
 }
 fn floors(_t: Tier) -> Vec<(&'static str, u64)> {
     vec![("evaluations", 10_000), ("layer_outputs_compared", 5_000), ("model_outputs_compared", 1_500), ("cost_arrays_compared", 2_500), ("model_backward_sums_compared", 1_000), ("batched_conv_layers", 800)]
+}
+
+thread_local! {
+    // one cost closure of each kind per worker, reused for every case: a closure is an object users keep and call with
+    // batches of different sizes
+    static SHARED_MSE: CostFunction = cost::mse();
+    static SHARED_CE: CostFunction = cost::cross_entropy();
 }
 
 fn batch_variant(r: &mut Rng, base: &[usize]) -> (Vec<usize>, &'static str) {
@@ -125,14 +133,20 @@ pub fn run_case(ctx: &mut Ctx, fam: &str, _k: u64, r: &mut Rng) {
                 let a = Acts::new();
                 let mut layers = build_layers(&spec, &a, &params);
                 let opt = GradientDescent::new(0.0);
-                let costf: CostFunction = if spec.ce { cost::cross_entropy() } else { cost::mse() };
-                let refs: Vec<&mut dyn Layer> = layers.iter_mut().map(|s| s as &mut dyn Layer).collect();
-                let mut model = Model::new(refs, &opt, &costf);
-                let out = model.forward(arr_t(&input));
-                let o = Obs::of(&out);
-                let cost_arr = Obs::of(&costf(&out, &arr_t(&target)));
-                let loss = model.backward(arr_t(&target)) as f64;
-                (o, cost_arr, loss)
+                let mut with_cost = |costf: &CostFunction| {
+                    let refs: Vec<&mut dyn Layer> = layers.iter_mut().map(|s| s as &mut dyn Layer).collect();
+                    let mut model = Model::new(refs, &opt, costf);
+                    let out = model.forward(arr_t(&input));
+                    let o = Obs::of(&out);
+                    let cost_arr = Obs::of(&costf(&out, &arr_t(&target)));
+                    let loss = model.backward(arr_t(&target)) as f64;
+                    (o, cost_arr, loss)
+                };
+                if spec.ce {
+                    SHARED_CE.with(|f| with_cost(f))
+                } else {
+                    SHARED_MSE.with(|f| with_cost(f))
+                }
             });
             match res {
                 Err(m) => ctx.violation(&format!("C15|model|panic:{}", panic_class(&m)), format!("{} panicked: {}", desc, m)),
@@ -179,10 +193,66 @@ pub fn run_case(ctx: &mut Ctx, fam: &str, _k: u64, r: &mut Rng) {
             let desc = format!("cost|{}|{:?}|target{:?}", if ce { "cross_entropy" } else { "mse" }, dims, tdims);
             ctx.case(&desc, n > 1);
             ctx.sample(&format!("cost{}", ce), || format!("{} output={} target={}", desc, short(&out), short(&tgt)));
+            // the costs are compositions of differentiable operations: with tracked output and target both receive the
+            // gradient of the documented formula (reference: the same formula as a program, forward mode)
+            let mut refp = Program::default();
+            let n_out = refp.leaf(&dims, &out, true);
+            let n_tgt = refp.leaf(&tdims, &tgt, true);
+            let ref_root = if ce {
+                let l = refp.op(OpKind::Ln, &[n_out]);
+                let nt = refp.op(OpKind::Neg, &[n_tgt]);
+                let m = refp.op(OpKind::Mul, &[nt, l]);
+                refp.op(OpKind::Scale(1.0 / dims[0] as f64), &[m])
+            } else {
+                let d = refp.op(OpKind::Sub, &[n_tgt, n_out]);
+                let sq = refp.op(OpKind::Mul, &[d, d]);
+                refp.op(OpKind::Scale(1.0 / n as f64), &[sq])
+            };
+            let seedv: Vec<f64> = (0..want.v.len()).map(|_| r.int(-3, 3)).collect();
+            let track_target = r.chance(1, 2);
             let res = guard(|| {
-                let f: CostFunction = if ce { cost::cross_entropy() } else { cost::mse() };
-                let c = f(&arr(&dims, &out), &arr(&tdims, &tgt));
-                (Obs::of(&c), c.sum_all() as f64)
+                let run = |f: &CostFunction| {
+                    let o = arr(&dims, &out).tracked();
+                    let t = if track_target { arr(&tdims, &tgt).tracked() } else { arr(&tdims, &tgt) };
+                    let c = f(&o, &t);
+                    let obs = Obs::of(&c);
+                    c.backward(Some(arr(&want.dims, &seedv)));
+                    (obs, c.sum_all() as f64, grad_of(&o), grad_of(&t))
+                };
+                if ce {
+                    SHARED_CE.with(|f| run(f))
+                } else {
+                    SHARED_MSE.with(|f| run(f))
+                }
+            });
+            let res = res.map(|(c, s, go, gt)| {
+                for (which, node, g) in [("output", n_out, go), ("target", n_tgt, gt)] {
+                    if which == "target" && !track_target {
+                        if g.is_some() {
+                            ctx.violation("C15|cost|untracked-target-got-gradient", format!("{}: the untracked target holds a gradient", desc));
+                        }
+                        continue;
+                    }
+                    ctx.count("cost_gradients_compared", 1);
+                    let (wg, sc) = match expected_gradient_scaled(&refp, node, &seedv, ref_root, true) {
+                        Some(x) => x,
+                        None => continue,
+                    };
+                    match g {
+                        None => ctx.violation(&format!("C15|cost|{}|gradient-missing", if ce { "cross_entropy" } else { "mse" }), format!("{}: tracked {} received no gradient", desc, which)),
+                        Some((gd, gv)) => {
+                            let wd = if which == "output" { &dims } else { &tdims };
+                            let ok = &gd == wd && gv.iter().zip(&wg).zip(&sc).all(|((a, b), s)| (a - b).abs() <= tau() * s.max(1.0) * 10.0);
+                            if !ok {
+                                ctx.violation(
+                                    &format!("C15|cost|{}|gradient-of-{}", if ce { "cross_entropy" } else { "mse" }, which),
+                                    format!("{}: gradient of the {} dims {:?} values {} want dims {:?} values {}\noutput={} target={} seed={}", desc, which, gd, short(&gv), wd, short(&wg), short(&out), short(&tgt), short(&seedv)),
+                                );
+                            }
+                        }
+                    }
+                }
+                (c, s)
             });
             match res {
                 Err(m) => ctx.violation(&format!("C15|cost|panic:{}", panic_class(&m)), format!("{} panicked: {}", desc, m)),
